@@ -34,7 +34,7 @@ ASSUMPTIONS = [
     "documented errors = the exception classes of pyoak.legacy.error; an operation that raises anything else gives no verdict (counted)",
     "operations expected to be rejected that are accepted give no verdict (counted) and join the history",
 ]
-MUST_SEE = ["runtime_only_child_field_transform", "rule_replaces_children_of_its_copy", "receiver_below_falsy_parent", 
+MUST_SEE = ["adopted_children_checked", "runtime_only_child_field_transform", "rule_replaces_children_of_its_copy", "receiver_below_falsy_parent", 
     "rejected_ASTNodeDuplicateChildrenError", "rejected_ASTNodeParentCollisionError", "rejected_ASTNodeIDCollisionError", "rejected_ASTNodeRegistryCollisionError",
     "rejected_ASTNodeReplaceError", "rejected_ASTNodeReplaceWithError", "rejected_ASTTransformError", "failing_element_not_first", "frames_compared", "nested_failing_element", "two_collided_children",
 ]
@@ -200,6 +200,7 @@ def run_shard(ctx):
                 seq.append(d)
                 rest = [x for x in cur if x is not d]
                 val = rest[:1] + seq if where != "first" else seq + rest[:1]
+                R.last_replace = (f.name, list(val))
                 return ("replace", where, n, val, lambda: n.replace(**{f.name: (val if f.shape == "list" else tuple(val))}))
             if kind == "replace_parent_collision":
                 c = [n for n in F.handles if type(n).__name__ in (f"{P}List", f"{P}Lst", f"{P}Call") and id(n) not in R.stale]
@@ -215,6 +216,7 @@ def run_shard(ctx):
                 cur = list(getattr(n, f.name))
                 seq, pos = place(x, 1, where)
                 val = (cur + seq) if where != "first" else (seq + cur)
+                R.last_replace = (f.name, list(val))
                 return ("replace", where, n, val, lambda: n.replace(**{f.name: (val if f.shape == "list" else tuple(val))}))
             if kind == "rw_has_parent":
                 n = rng.choice(F.handles)
@@ -414,11 +416,44 @@ def run_shard(ctx):
             rs = set(r for r, _ in roles)
             generic = f"{opname}|{ename}|" + ";".join(sorted(f"{r}:{','.join(o)}" for r, o in set(roles)))
             if opname == "replace" and ename in ("ASTNodeDuplicateChildrenError", "ASTNodeParentCollisionError", "ASTNodeRegistryCollisionError"):
+                # the recorded mechanism loses the links of the receiver's children that the failed construction had not
+                # yet adopted: children that come, in child order of the new value, before the first child that could
+                # have failed (one that was detached or had another parent) are adopted and must be found unchanged
+                safe = set()
+                if ename != "ASTNodeDuplicateChildrenError":  # duplicates are detected before any child is adopted
+                    fname, val = R.last_replace
+                    for fld in U.child_fields(type(recv).__name__):
+                        v = val if fld.name == fname else getattr(recv, fld.name)
+                        seq = [] if v is None else list(v) if isinstance(v, (list, tuple)) else [v]
+                        stop = False
+                        for c in seq:
+                            b = before["nodes"].get(id(c))
+                            if b is None or b[0] or (b[1] is not None and b[1] != id(recv)):
+                                stop = True
+                                break
+                            if b[1] == id(recv):
+                                safe.add(id(c))
+                        if stop:
+                            break
+                if any(dd.get("obj") in safe for dd in diff):
+                    ctx.count("adopted_children_checked")
+                    return generic + "|child-adopted-before-the-failure-changed", roles
+                if safe:
+                    ctx.count("adopted_children_checked")
                 ok = reg_only_args and all(
                     (r == "child-of-receiver" and set(o) <= link) or (r == "argument-subtree" and set(o) <= partial) or r == "registry" for r, o in roles
                 )
                 return ("replace-rollback-loses-child-links" if ok else generic), roles
             if opname in ("construct", "attach") and ename in ("ASTNodeParentCollisionError", "ASTNodeRegistryCollisionError"):
+                if opname == "construct":
+                    # children that come after the last child that could have failed are never reached
+                    flat = [a for a in args if hasattr(a, "detached")]
+                    susp = [i for i, a in enumerate(flat) if (before["nodes"].get(id(a)) or (True,))[0] or (before["nodes"].get(id(a)) or (0, 1))[1] is not None]
+                    if susp:
+                        untouched = {id(x) for a in flat[max(susp) + 1:] for x in struct_subtree(U, a)} - {id(x) for a in flat[: max(susp) + 1] for x in struct_subtree(U, a)}
+                        ctx.count("children_after_the_failure_checked")
+                        if any(dd.get("obj") in untouched for dd in diff):
+                            return generic + "|child-after-the-failing-one-changed", roles
                 sub_role = {"argument-subtree"} if opname == "construct" else {"child-of-receiver", "descendant-of-receiver"}
                 ok = reg_only_args and all((r in sub_role and set(o) <= partial) or r == "registry" for r, o in roles)
                 return ("partial-attach-not-rolled-back" if ok else generic), roles
